@@ -320,7 +320,13 @@ func init() {
 		for _, f := range corpusFens {
 			emit(f, "corpus")
 		}
+		for _, f := range mateFens {
+			emit(f, "mate-corpus")
+		}
 		for i := 0; i < n; i++ {
+			if i%3 == 0 {
+				emit(mateyPlacement(r), "matey")
+			}
 			switch i % 4 {
 			case 0, 1:
 				emit(sparsePlacement(r), "sparse")
@@ -382,4 +388,81 @@ func init() {
 			fmt.Fprintf(out, "%s\t%d\t%s\n", status, len(gm.moves), cmd)
 		}
 	}
+}
+
+var mateFens = []string{
+	"6k1/5ppp/8/8/8/8/8/R3K3 w - - 0 1", "7k/5Q2/5K2/8/8/8/8/8 w - - 0 1", "k7/8/1K6/8/8/8/8/7R w - - 0 1", "7k/8/5K1Q/8/8/8/8/8 b - - 0 1",
+	"r1bqkb1r/pppp1ppp/2n2n2/4p2Q/2B1P3/8/PPPP1PPP/RNB1K1NR w KQkq - 4 4", "6k1/6pp/8/8/8/8/1r6/K1r5 w - - 0 1", "k7/2K5/8/8/8/8/8/1R6 w - - 0 1",
+	"8/8/8/8/8/1k6/8/K2r4 w - - 0 1", "5rk1/5ppp/8/8/8/8/5PPP/3R2K1 w - - 0 1", "2k5/8/2K5/8/8/8/8/4R3 w - - 0 1", "k7/8/K7/8/8/8/8/2Q5 w - - 0 1",
+	"7k/6pp/8/8/8/8/8/K5R1 b - - 0 1", "1k6/8/1K6/8/8/8/8/6R1 w - - 0 1", "3k4/8/3K4/8/8/8/8/7R b - - 0 1", "8/8/8/8/8/5k2/4q3/6K1 w - - 0 1",
+	"6rk/6pp/7N/8/8/8/8/K7 w - - 0 1", "kr6/pp6/8/1N6/8/8/8/K7 w - - 0 1", "4k3/4P3/4K3/8/8/8/8/8 b - - 0 1", "7k/7P/5K2/8/8/8/8/6R1 w - - 0 1",
+}
+
+// a lone king near the edge against heavy pieces: forced mates in 1-5 plies are frequent
+func mateyPlacement(r *rng) string {
+	cells := map[int]byte{}
+	edge := func() int {
+		switch r.intn(4) {
+		case 0:
+			return sq(r.intn(8), 0)
+		case 1:
+			return sq(r.intn(8), 7)
+		case 2:
+			return sq(0, r.intn(8))
+		}
+		return sq(7, r.intn(8))
+	}
+	lone := edge()
+	whiteWins := r.chance(1, 2)
+	loneC, kingC := byte('k'), byte('K')
+	heavy := "QRQRBN"
+	if !whiteWins {
+		loneC, kingC = 'K', 'k'
+		heavy = "qrqrbn"
+	}
+	cells[lone] = loneC
+	for tries := 0; tries < 50; tries++ {
+		f, rk := lone&15+r.intn(5)-2, lone>>4+r.intn(5)-2
+		if f < 0 || f > 7 || rk < 0 || rk > 7 {
+			continue
+		}
+		s := sq(f, rk)
+		df, dr := f-lone&15, rk-lone>>4
+		if df < 0 {
+			df = -df
+		}
+		if dr < 0 {
+			dr = -dr
+		}
+		if _, used := cells[s]; used || (df < 2 && dr < 2) {
+			continue
+		}
+		cells[s] = kingC
+		break
+	}
+	n := 1 + r.intn(2)
+	for i := 0; i < n; i++ {
+		for tries := 0; tries < 30; tries++ {
+			s := sq(r.intn(8), r.intn(8))
+			if _, used := cells[s]; !used {
+				cells[s] = heavy[r.intn(len(heavy))]
+				break
+			}
+		}
+	}
+	if r.chance(1, 3) {
+		s := sq(r.intn(8), 1+r.intn(6))
+		if _, used := cells[s]; !used {
+			if whiteWins {
+				cells[s] = 'p'
+			} else {
+				cells[s] = 'P'
+			}
+		}
+	}
+	side := "w"
+	if r.chance(1, 2) {
+		side = "b"
+	}
+	return fenFromMap(cells, side, "-", "-", 1+r.intn(60))
 }
